@@ -32,6 +32,7 @@ type suComp struct {
 	ca   *caComp
 	srv  *subscribe.Server
 	subs map[string]*suSub
+	pregate map[string]bool // ids whose stream starts with flow control shut
 }
 
 func init() { components["su"] = &suComp{} }
@@ -70,6 +71,7 @@ type suSub struct {
 	out     []string // rendered (key, resp) pairs: "key\x00resp", or "sync"
 	gate    chan struct{} // nil = open
 	stepc   chan struct{} // releases exactly one gated Send
+	pregated bool
 	gated   bool          // a gate was shut since the last drain
 	done    bool
 	err     error
@@ -131,7 +133,11 @@ func (st *suStream) Send(r *pb.SubscribeResponse) error {
 		g := fromNoti(v.Update)
 		if len(g.del) > 0 {
 			idx := subIndexOf(g.prefix, g.del[0])
-			st.s.out = append(st.s.out, encPath(idx)+"\x00D@"+strconv.FormatInt(g.ts, 10)+"\x000")
+			if st.c.pregate[st.s.id] {
+				st.s.out = append(st.s.out, encPath(idx)+"\x00D\x000")
+			} else {
+				st.s.out = append(st.s.out, encPath(idx)+"\x00D@"+strconv.FormatInt(g.ts, 10)+"\x000")
+			}
 			viewDeleteIn(st.s.view, idx)
 			break
 		}
@@ -153,6 +159,12 @@ func (st *suStream) Send(r *pb.SubscribeResponse) error {
 		cnt := 0
 		if showDup {
 			cnt = int(dup) + 1
+		}
+		if st.c.pregate[st.s.id] {
+			// which response the sender was holding when the stream stalled at its very first send
+			// depends on the walk order (a map iteration): values and counts of such a subscriber
+			// are not compared, only what was delivered for which key in which order
+			resp, cnt = kind, 0
 		}
 		st.s.out = append(st.s.out, encPath(idx)+"\x00"+resp+"\x00"+strconv.Itoa(cnt))
 		st.s.view[encPath(idx)] = viewVal(g, st.c.ca.ed)
@@ -316,6 +328,20 @@ func (s *suSub) drain() string {
 	if strings.HasPrefix(st, "ended:") && st != "ended:ok" {
 		return st
 	}
+	if s.pregated {
+		// (see Send: only what was delivered per key, and how many sync markers — where an update
+		// lands relative to the sync marker depends on which response the sender was holding)
+		var all []string
+		n := 0
+		for _, e := range out {
+			if e == "sync" {
+				n++
+			} else {
+				all = append(all, e)
+			}
+		}
+		return renderSegmentGo(all) + " syncs=" + strconv.Itoa(n) + " " + st
+	}
 	var segs []string
 	var cur []string
 	for _, e := range out {
@@ -403,6 +429,7 @@ func (c *suComp) Run(args []string) string {
 			s.cancel()
 		}
 		c.subs = map[string]*suSub{}
+		c.pregate = map[string]bool{}
 		c.ca = &caComp{}
 		out := c.ca.Run(args)
 		c.srv, _ = subscribe.NewServer(c.ca.c, subscribe.WithTimeout(suTimeout), subscribe.WithACL(suACL{}))
@@ -418,6 +445,9 @@ func (c *suComp) Run(args []string) string {
 			return out + " not-quiescent"
 		}
 		return out
+	case "pregate":
+		c.pregate[decStr(args[1])] = true
+		return "ok"
 	case "sub", "subw":
 		id := decStr(args[1])
 		ran := false
@@ -471,6 +501,11 @@ func (c *suComp) Run(args []string) string {
 			close(s.reqs)
 		} else {
 			s.reqs <- req
+		}
+		if c.pregate[id] {
+			s.gate = make(chan struct{})
+			s.gated = true
+			s.pregated = true
 		}
 		c.subs[id] = s
 		go func() {
@@ -826,6 +861,13 @@ func (c *suComp) Gen(r *rand.Rand, tier string) []string {
 		switch x := r.Intn(100); {
 		case x < 22 && nsub < 5:
 			nsub++
+			if genProfile == "c08" && r.Intn(4) == 0 {
+				// the stream is under back-pressure from its first response on: the whole
+				// snapshot waits in the queue while the cache moves on
+				id := fmt.Sprintf("s%d", nsub)
+				s.emit("pregate %s", encStr(id))
+				s.gate[id] = true
+			}
 			s.genSub(fmt.Sprintf("s%d", nsub))
 		case x < 30 && len(s.ids) > 0:
 			// (a re-walk under a shut gate races with the sender taking the first entry)
